@@ -104,9 +104,18 @@ def cleanup_scratch():
             shutil.rmtree(os.path.join(SCRATCH_BASE, name), ignore_errors=True)
 
 
+def _current_path(pid):
+    return os.path.join(SCRATCH_BASE, f"verif-current-{pid}.json")
+
+
 def _job_entry(args):
     modname, spec = args
     mod = importlib.import_module(modname)
+    try:
+        with open(_current_path(os.getpid()), "w") as fh:
+            json.dump({"spec": spec, "since": time.time()}, fh, default=str)
+    except OSError:
+        pass
     try:
         acc = mod.run_job(spec)
     except BaseException as exc:  # noqa: BLE001
@@ -143,10 +152,44 @@ def run_check(prop, tier, seed, nproc=None):
         for acc in results:
             total.merge(acc)
     else:
+        # watchdog: the implementation under test may hang (a livelock inside a transaction, a
+        # recursive query that never ends); a job that does not finish is a reported failure
+        limit = float(os.environ.get("VERIF_JOB_TIMEOUT", "900" if tier == "quick" else "7200"))
         ctx = mp.get_context("fork")
-        with ctx.Pool(min(nproc, len(specs))) as pool:
-            for acc in pool.imap_unordered(_job_entry, [(modname, s) for s in specs], chunksize=1):
+        pool = ctx.Pool(min(nproc, len(specs)))
+        try:
+            pids = [w.pid for w in pool._pool]
+            it = pool.imap_unordered(_job_entry, [(modname, s) for s in specs], chunksize=1)
+            for _ in range(len(specs)):
+                try:
+                    acc = it.next(timeout=limit)
+                except mp.TimeoutError:
+                    stuck = []
+                    for pid in pids:
+                        try:
+                            with open(_current_path(pid)) as fh:
+                                doc = json.load(fh)
+                            if time.time() - doc["since"] >= limit * 0.9:
+                                stuck.append(doc["spec"])
+                        except (OSError, ValueError):
+                            pass
+                    total.extra.setdefault("job_errors", []).append(
+                        {"spec": repr(stuck)[:1500],
+                         "error": f"no job finished within {limit:.0f} s: the implementation hangs "
+                                  f"(livelock or non-terminating query) in the jobs listed"})
+                    break
                 total.merge(acc)
+        finally:
+            pool.terminate()
+            pool.join()
+            for name in os.listdir(SCRATCH_BASE):
+                if name.startswith("verif-current-"):
+                    try:
+                        os.unlink(os.path.join(SCRATCH_BASE, name))
+                    except OSError:
+                        pass
+                elif any(name.startswith(f"verif-{pid}-") for pid in pids):
+                    shutil.rmtree(os.path.join(SCRATCH_BASE, name), ignore_errors=True)
     if hasattr(mod, "finish"):
         mod.finish(total, tier, seed)
     wall = time.time() - t0
